@@ -100,7 +100,9 @@ func scan(path, repo string) []site {
 		out = append(out, site{file: rel, line: a.Line, col: a.Column, start: a.Offset, end: b.Offset, repl: repl, op: op,
 			desc: strings.ReplaceAll(before, "\n", " ") + " -> " + strings.ReplaceAll(r, "\n", " ")})
 	}
-	text := func(n ast.Node) string { return string(src[fset.Position(n.Pos()).Offset:fset.Position(n.End()).Offset]) }
+	text := func(n ast.Node) string {
+		return string(src[fset.Position(n.Pos()).Offset:fset.Position(n.End()).Offset])
+	}
 	ast.Inspect(f, func(n ast.Node) bool {
 		switch x := n.(type) {
 		case *ast.FuncDecl:
